@@ -16,6 +16,8 @@ fn d(s: &str) -> Decimal { s.parse().unwrap() }
 /// one statement entry: credit?, amount, booking day, value day, amounts of its batched details (empty: no TxDtls)
 #[derive(Clone)]
 struct Entry { credit: bool, amount: Decimal, booking: u32, value: Option<u32>, details: Vec<Decimal> }
+// a detail amount is signed relative to its entry: a negative value is a detail with the OPPOSITE indicator (a returned
+// payment netted in the same batch); the details still sum to the entry
 
 fn ind(credit: bool) -> &'static str { if credit { "CRDT" } else { "DBIT" } }
 
@@ -33,7 +35,8 @@ fn xml(opening: Decimal, opening_credit: bool, closing: Decimal, closing_credit:
         if !e.details.is_empty() {
             s.push_str(&format!("<NtryDtls><Btch><NbOfTxs>{}</NbOfTxs></Btch>", e.details.len()));
             for (j, a) in e.details.iter().enumerate() {
-                s.push_str(&format!("<TxDtls><Refs><AcctSvcrRef>R{}/{}</AcctSvcrRef></Refs><Amt Ccy=\"CHF\">{}</Amt><CdtDbtInd>{}</CdtDbtInd><AddtlTxInf>detail {} {}</AddtlTxInf></TxDtls>", i, j, a, ind(e.credit), i, j));
+                let same = !a.is_sign_negative();
+                s.push_str(&format!("<TxDtls><Refs><AcctSvcrRef>R{}/{}</AcctSvcrRef></Refs><Amt Ccy=\"CHF\">{}</Amt><CdtDbtInd>{}</CdtDbtInd><AddtlTxInf>detail {} {}</AddtlTxInf></TxDtls>", i, j, a.abs(), ind(if same { e.credit } else { !e.credit }), i, j));
             }
             s.push_str("</NtryDtls>");
         }
@@ -60,6 +63,9 @@ pub fn run(_args: &[String]) -> i32 {
         (d("-50"), vec![e(true, "80", 1, Some(1), &[]), e(false, "80", 2, Some(2), &["30", "50"])]),
         (d("1234.56"), vec![e(false, "1234.56", 7, Some(8), &[])]),
         (d("5"), vec![e(false, "20", 1, Some(1), &[]), e(true, "7", 2, Some(3), &["7"])]),
+        // a batched debit of 170 made of a 200 debit and a 30 credit (opposite indicator inside the batch)
+        (d("1000"), vec![e(false, "170", 4, Some(4), &["200", "-30"]), e(true, "50", 6, Some(5), &[])]),
+        (d("10"), vec![e(true, "5", 2, None, &["-1", "6"])]),
     ];
     for (opening, entries) in &scenarios {
         for new_to_old in [false, true] {
